@@ -22,6 +22,8 @@ struct RInfo {
     id: usize,
     start: u64,
     size: usize,
+    /// length of the mapping the library created (what munmap must be called with)
+    map_len: usize,
     host: usize,
     /// mapping owned by the library (false: externally provided raw mapping)
     owned: bool,
@@ -81,11 +83,11 @@ impl World {
         }
         for e in log {
             if let Ev::Munmap { addr, len, ret } = e {
-                let hit = self.regions.iter().find(|r| r.host == *addr && !self.unmapped[r.id] || (r.host < addr + len && *addr < r.host + r.size && !self.unmapped[r.id]));
+                let hit = self.regions.iter().find(|r| r.host == *addr && !self.unmapped[r.id] || (r.host < addr + len && *addr < r.host + r.map_len && !self.unmapped[r.id]));
                 match hit {
                     Some(r) => {
                         ensure!(r.owned, "{}: the library unmapped the externally provided mapping of region {} ({:#x}+{:#x}) with munmap({:#x},{:#x})", what, r.id, r.host, r.size, addr, len);
-                        ensure!(*addr == r.host && *len == r.size, "{}: munmap({:#x}, {:#x}) does not match the mapping of region {} ({:#x}, {:#x})", what, addr, len, r.id, r.host, r.size);
+                        ensure!(*addr == r.host && *len == r.map_len, "{}: munmap({:#x}, {:#x}) does not match the mapping of region {} ({:#x}, {:#x})", what, addr, len, r.id, r.host, r.map_len);
                         ensure!(*ret == 0, "{}: munmap of region {} failed", what, r.id);
                         ensure!(expected.contains(&r.id), "{}: region {} ({} at {:#x}) was unmapped although {} owner(s) can still reach it", what, r.id, r.kind, r.host, self.refcount(r.id));
                         let id = r.id;
@@ -215,24 +217,37 @@ fn create_region(w: &mut World, t: &mut Tape, cx: &mut Cx) -> Result<Reg, String
     // SAFETY: fresh mapping of `size` bytes.
     unsafe { std::ptr::write_bytes(host as *mut u8, tag, size) };
     let r = GuestRegionMmap::new(mapping, GuestAddress(start)).map_err(|e| format!("{:?}", e))?;
-    w.regions.push(RInfo { id, start, size, host, owned, tag, kind: kname });
+    w.regions.push(RInfo { id, start, size, map_len: size, host, owned, tag, kind: kname });
     w.unmapped.push(false);
     Ok(Arc::new(r))
 }
 
 #[cfg(feature = "xen")]
-fn create_region(w: &mut World, t: &mut Tape, _cx: &mut Cx) -> Result<Reg, String> {
+fn create_region(w: &mut World, t: &mut Tape, cx: &mut Cx) -> Result<Reg, String> {
+    use crate::xen_emul::{build as xbuild, Kind as XKind};
     let id = w.regions.len();
     let size = t.pick(&[1usize, PS, PS + 1, 2 * PS, 3 * PS - 1, 100]);
     let start = 0x10_0000 * (id as u64 + 1);
     let tag = 0x21 + id as u8;
-    let file = if t.flag() { Some(FileOffset::new(memfd((size.div_ceil(PS) * PS) as u64), 0)) } else { None };
-    let kname = if file.is_some() { "xen-unix file-backed" } else { "xen-unix anonymous" };
-    let r = GuestRegionMmap::<()>::from_range(GuestAddress(start), size, file).map_err(|e| format!("{:?}", e))?;
+    let (r, map_len, kname): (GuestRegionMmap<()>, usize, &'static str) = match t.below(5) {
+        0 => (GuestRegionMmap::<()>::from_range(GuestAddress(start), size, None).map_err(|e| format!("{:?}", e))?, size, "xen-unix anonymous"),
+        1 => {
+            let file = Some(FileOffset::new(memfd((size.div_ceil(PS) * PS) as u64), 0));
+            (GuestRegionMmap::<()>::from_range(GuestAddress(start), size, file).map_err(|e| format!("{:?}", e))?, size, "xen-unix file-backed")
+        }
+        2 => {
+            cx.nt("xen_foreign_region");
+            (xbuild::<()>(XKind::Foreign, start, size)?.region, size.div_ceil(PS) * PS, "xen-foreign")
+        }
+        _ => {
+            cx.nt("xen_grant_region");
+            (xbuild::<()>(XKind::GrantAdvance, start, size)?.region, size.div_ceil(PS) * PS, "xen-grant (mapped in advance)")
+        }
+    };
     let host = r.as_ptr() as usize;
     // SAFETY: fresh mapping.
     unsafe { std::ptr::write_bytes(host as *mut u8, tag, size) };
-    w.regions.push(RInfo { id, start, size, host, owned: true, tag, kind: kname });
+    w.regions.push(RInfo { id, start, size, map_len, host, owned: true, tag, kind: kname });
     w.unmapped.push(false);
     Ok(Arc::new(r))
 }
@@ -243,6 +258,8 @@ fn map_regions(m: &Map, w: &World) -> Vec<usize> {
 
 fn run(t: &mut Tape, cx: &mut Cx) -> Result<(), String> {
     ensure!(interpose::installed(), "harness: mmap interposer not installed");
+    #[cfg(feature = "xen")]
+    crate::xen_emul::reset();
     let mut w = World { regions: vec![], owners: vec![], atomics: vec![], unmapped: vec![], raw_maps: vec![] };
     let nsteps = 2 + t.idx(24);
     let mut last_owner_not_creator = false;
@@ -467,6 +484,13 @@ fn run(t: &mut Tape, cx: &mut Cx) -> Result<(), String> {
     let _ = interpose::end();
     for r in &w.regions {
         ensure!(w.unmapped[r.id] || !r.owned, "region {} ({}) leaked: never unmapped although nothing can reach it", r.id, r.kind);
+    }
+    #[cfg(feature = "xen")]
+    {
+        let lv = crate::xen_emul::live();
+        let log = crate::xen_emul::take_log();
+        ensure!(lv.is_empty(), "grant windows remain mapped on the device after every owner is gone: {:x?}", lv);
+        ensure!(!log.iter().any(|e| matches!(e, crate::xen_emul::XEv::Unmap { matched: false, .. })), "an unmap request did not match a live window: {:x?}", log);
     }
     for (p, len) in &w.raw_maps {
         ensure!(interpose::proc_maps_covers(*p, *len), "the externally provided mapping {:#x}+{:#x} was unmapped by the library", p, len);
